@@ -190,6 +190,56 @@ func c18Handmade(c *core.Ctx, lfsBin string, kind string, idx int) (*apiRun, err
 		os.WriteFile(filepath.Join(tmpl, "info", "attributes"), []byte("*.bin "+w.Attr+"\n"), 0o644)
 		w.Env.RunIn(root, skipSmudge, nil, 120*time.Second, "git", "clone", "-q", "--template="+tmpl, "-c", "lfs.url="+w.Srv.LFSURL(repoName, "alice"), w.Remote, cloneB)
 		run(cloneB, "lfs", "fetch")
+	case "tus-fallback":
+		// the client offers tus (lfs.tustransfers); the first batch response picks it, the tus end point
+		// is down (503), and every later response names no adapter: those actions are basic ones (PUT)
+		run(w.Clone, "config", "lfs.tustransfers", "true")
+		w.Commit("main", "p1", "o1", 0)
+		w.Commit("main", "p2", "o2", 0)
+		var fmu sync.Mutex
+		nbatch := 0
+		w.Srv.Fault = func(s *lfsserver.Server, k, repo string, rw http.ResponseWriter, r *http.Request, body []byte) bool {
+			if r.Method == "HEAD" || r.Method == "PATCH" {
+				rw.WriteHeader(503)
+				return true
+			}
+			if k != "batch" {
+				return false
+			}
+			var req struct {
+				Operation string `json:"operation"`
+				Objects   []struct {
+					Oid  string `json:"oid"`
+					Size int64  `json:"size"`
+				} `json:"objects"`
+			}
+			json.Unmarshal(body, &req)
+			if req.Operation != "upload" {
+				return false
+			}
+			fmu.Lock()
+			nbatch++
+			first := nbatch == 1
+			fmu.Unlock()
+			objs := []map[string]interface{}{}
+			for _, o := range req.Objects {
+				href := s.URL + "/storage/" + repo + "/" + o.Oid
+				if first {
+					href = s.URL + "/storage/" + repo + "-tus/" + o.Oid
+				}
+				objs = append(objs, map[string]interface{}{"oid": o.Oid, "size": o.Size,
+					"actions": map[string]interface{}{"upload": map[string]interface{}{"href": href}}})
+			}
+			resp := map[string]interface{}{"objects": objs}
+			if first {
+				resp["transfer"] = "tus"
+			}
+			rw.Header().Set("Content-Type", lfsMedia)
+			rw.WriteHeader(200)
+			json.NewEncoder(rw).Encode(resp)
+			return true
+		}
+		run(w.Clone, "push", "origin", "main")
 	case "hashalgo":
 		w.Commit("main", "p1", "o1", 0)
 		w.Srv.Fault = func(s *lfsserver.Server, k, repo string, rw http.ResponseWriter, r *http.Request, body []byte) bool {
@@ -229,6 +279,20 @@ func c18Handmade(c *core.Ctx, lfsBin string, kind string, idx int) (*apiRun, err
 		}
 		if n401 < 3 || n200 < 3 {
 			return nil, fmt.Errorf("action-401 scenario is vacuous: %d refused and %d served action requests", n401, n200)
+		}
+	}
+	if kind == "tus-fallback" {
+		// vacuity control: tus was tried, and afterwards plain uploads happened
+		nHead, nPut := 0, 0
+		for _, q := range w.Srv.Requests() {
+			if q.Method == "HEAD" {
+				nHead++
+			} else if q.Kind == "storage-put" && q.Status == 200 {
+				nPut++
+			}
+		}
+		if nHead < 1 {
+			return nil, fmt.Errorf("tus-fallback scenario is vacuous: %d tus requests, %d plain uploads", nHead, nPut)
 		}
 	}
 	return &apiRun{name: kind, reqs: w.Srv.Requests()}, nil
@@ -273,8 +337,8 @@ func init() {
 			}
 			runs = append(runs, ar)
 		})
-		kinds := []string{"push-branches", "fetch", "locks", "hashalgo", "action-401"}
-		core.Parallel(len(kinds), 5, func(i int) {
+		kinds := []string{"push-branches", "fetch", "locks", "hashalgo", "action-401", "tus-fallback"}
+		core.Parallel(len(kinds), 6, func(i int) {
 			ar, err := c18Handmade(c, lfs, kinds[i], i)
 			mu.Lock()
 			defer mu.Unlock()
@@ -384,6 +448,7 @@ func init() {
 						"acceptOk": mediaOK(q.Accept), "ctypeOk": mediaOK(q.ContentType)}, strings.Join(schemaErr[j], "; "))
 					var resp struct {
 						HashAlgo string `json:"hash_algo"`
+						Transfer string `json:"transfer"`
 						Objects  []struct {
 							Oid     string `json:"oid"`
 							Actions map[string]struct {
@@ -397,6 +462,10 @@ func init() {
 						emit(ri, q, apiEvent{"ev": "hashalgo", "algo": resp.HashAlgo}, "")
 						continue
 					}
+					adapter := resp.Transfer
+					if adapter == "" {
+						adapter = "basic" // docs/api/batch.md: "If omitted, the basic transfer adapter MUST be assumed"
+					}
 					for _, o := range resp.Objects {
 						rels := []string{}
 						for rel := range o.Actions {
@@ -405,12 +474,15 @@ func init() {
 						sort.Strings(rels)
 						for _, rel := range rels {
 							a := o.Actions[rel]
-							emit(ri, q, apiEvent{"ev": "offer", "oid": o.Oid, "rel": rel, "href": a.Href}, "")
+							emit(ri, q, apiEvent{"ev": "offer", "oid": o.Oid, "rel": rel, "href": a.Href, "adapter": adapter}, "")
 							offeredHdr[o.Oid+"|"+rel] = a.Header
 						}
 					}
 				case "storage-get", "storage-put", "verify":
 					rel := map[string]string{"storage-get": "download", "storage-put": "upload", "verify": "verify"}[q.Kind]
+					if q.Method == "HEAD" || q.Method == "PATCH" {
+						rel = "upload" // tus.io
+					}
 					oid := q.Oid
 					bodyOk := true
 					if q.Kind == "verify" {
